@@ -159,4 +159,10 @@ def run(ctx):
     R.ob(bool(fin) and all(must_pass_on_success(g, [c.bb for c in g.calls() if (c.method or "") == "clear_txpool"]) for g in fin), "DOM-all",
          "engine", "DOM-all|finalise|clear_txpool", "finalise_block does not always clear expired pool entries",
          sample={"rule": "DOM-all", "fn": "finalise_block", "step": "clear_txpool"})
+    # the pending pool's two tables follow the chain (reorg / clear_caches / commit visit both)
+    import tablerules as T
+    pool_tables = T.fields_touched(F, ["get_pending_tx", "get_all_pending_txes", "get_all_pending_txes_from", "get_pending_tx_op_return_tx_id"])
+    R.floor("pool_tables", len(pool_tables), 2)
+    for dm in ("reorg", "clear_caches", "commit_changes"):
+        T.clause_tables(R, F, dm, only_fields=pool_tables)
     return R
